@@ -54,12 +54,12 @@ def translation_clause(model, rep, funcs):
         if f is None:
             continue
         dom = BinDomain(model, integer_syms={"binsize"}, positive_syms={"binsize", "scale"})
-        it = Interp(model, dom, depth=0)
+        it = Interp(model, dom, depth=1)  # one level: a private helper that holds the shared half-bin translation is read through
         seen = {}
 
         def on_call(interp, fn, node, callee, args, kwargs, env, _f=f):
-            if fn is not _f:
-                return
+            if fn is not _f and not fn.name.startswith("_"):
+                return  # (a private helper of the loader, e.g. the shared half-bin translation, is part of the binning code)
             nm = node.func.attr if isinstance(node.func, ast.Attribute) else ""
             if nm == "translate" and args:
                 seen["tr"] = args[0]
